@@ -366,7 +366,7 @@ def check_next(ctx, prog, fn):
         for st in place_stores:
             v = strip(st.value)
             tgt = prog.resolve(v) if v.kind == 'call' else None
-            if tgt is None or not any(c.callee_name() == 'next' for c in tgt.body.calls):
+            if tgt is None or not any(c.callee_name() in ('next', 'find') for c in tgt.body.calls):
                 problems.append('the place cursor is assigned %s, not the next selected place from the bit iterator' % show(v, 3))
             zero = [p for p in pos_stores if p.point[0] == st.point[0] or cfg.dominates(st.point[0], p.point[0]) or cfg.dominates(p.point[0], st.point[0])]
             zero = [p for p in zero if strip(p.value).is_const(0)]
@@ -393,6 +393,33 @@ def check_find_next(prog, fn):
     cfg = b.cfg
     problems = []
     nexts = [c for c in b.calls if c.callee_name() == 'next']
+    finds = [c for c in b.calls if c.callee_name() == 'find' and prog.classify(c) == 'std']
+    if not nexts and len(finds) == 1:
+        # `bits.find(|&i| !self.chunk(i).is_empty()).unwrap_or(MARKER)`: Iterator::find pulls until the predicate holds
+        f = finds[0]
+        cl = prog.closures_passed(f)
+        if len(cl) != 1:
+            return ['undecided: the predicate of the place search is not a closure literal']
+        cb = cl[0].body
+        for rv in cb.ret_val.values():
+            d = strip(rv)
+            neg = False
+            while d.kind == 'un' and d.args[0] == 'Not':
+                d = strip(d.args[1])
+                neg = not neg
+            if not (d.kind == 'call' and d.callee_name() == 'is_empty'):
+                problems.append('undecided: the place search does not select by list emptiness')
+            elif not neg:
+                problems.append('a place is selected when its list IS empty')
+        for blk, v in ret_cases(b):
+            v = strip(v)
+            if v.kind == 'call' and v.callee_name() == 'unwrap_or' and len(v.args) == 2 and strip(v.args[0]) is f:
+                m = strip(v.args[1])
+                if not (m.kind == 'const' and isinstance(m.args[0], int) and m.args[0] >= (1 << 16)):
+                    problems.append('the exhaustion marker %s is a valid place number' % show(m, 2))
+            elif not derives(v, f):
+                problems.append('place helper returns %s' % show(v, 3))
+        return problems
     if len(nexts) != 1:
         return ['undecided: place helper does not pull from the bit iterator exactly once per round']
     n = nexts[0]
